@@ -161,6 +161,10 @@ class BranchObj(SymVal):
             # trusted: EventEmitter.emit calls listeners; no listener writes the private fields (C06.frame scan)
             return Contract(lambda it, *a, **k: None, 'EventEmitter.emit', trusted=True)
         if name in self.FIELDS: raise PyExc(AttributeError, (name,))
+        from pyvc.interp import private_helper
+        from pytableaux.proof.common import Branch
+        ok, v = private_helper(it, Branch, name, self, getattr(self, 'inlined', None))
+        if ok: return v
         raise Outside(f'Branch.{name}')
     def sym_setattr(self, it, name, v):
         if name == 'parent':
